@@ -162,15 +162,14 @@ Proof.
   - destruct (IH _ H1) as (la & x & lb & -> & <- & <- & <-). exists (z :: la), x, lb. auto.
 Qed.
 
-Theorem C02_caller_eof_after_all pol ls s c k :
+Lemma eof_taken_after_all pol ls s c k e :
   Sys.lrun pol Sys.init ls = Some s -> fault_free ls = true ->
   nth_error (calls (cl s)) c = Some k -> k_unary k = false -> k_pc k = POpen ->
-  In (EvRecvRet c (RErr EEof)) (Client.log (cl s)) ->
+  In e (ctakes c (Client.log (cl s))) -> final_of e = Some EEof ->
   msgs c (Client.log (cl s)) = pb (accepted (k_id k) (sv s)).
 Proof.
-  intros H Hff Hn Hu Hp Hret.
+  intros H Hff Hn Hu Hp Hin Hfin.
   pose proof (proj_c_run _ _ _ _ H) as Hc. pose proof (proj_s_run _ _ _ _ H) as Hs.
-  destruct (ce_ret _ (CE_reach _ _ Hc) _ Hret) as (e & Hin & Hfin). apply in_ctakes in Hin.
   destruct (RE_sys _ _ _ H _ _ Hn Hu) as (_ & R2 & _).
   destruct (R2 (ex_intro _ e (conj Hin Hfin))) as (_ & <-).
   (* the takes are a prefix of what the writer accepted *)
@@ -195,6 +194,17 @@ Proof.
   rewrite !pb_app. f_equal.
   change (pb (e :: P2)) with (tb e ++ pb P2). change (pb (e :: P2 ++ R)) with (tb e ++ pb (P2 ++ R)).
   rewrite Z. rewrite pb_app in Z. apply app_eq_nil in Z. destruct Z as (Z1 & _). rewrite Z1. reflexivity.
+Qed.
+
+Theorem C02_caller_eof_after_all pol ls s c k :
+  Sys.lrun pol Sys.init ls = Some s -> fault_free ls = true ->
+  nth_error (calls (cl s)) c = Some k -> k_unary k = false -> k_pc k = POpen ->
+  In (EvRecvRet c (RErr EEof)) (Client.log (cl s)) ->
+  msgs c (Client.log (cl s)) = pb (accepted (k_id k) (sv s)).
+Proof.
+  intros H Hff Hn Hu Hp Hret.
+  destruct (ce_ret _ (CE_reach _ _ (proj_c_run _ _ _ _ H)) _ Hret) as (e & Hin & Hfin). apply in_ctakes in Hin.
+  eapply eof_taken_after_all; eauto.
 Qed.
 
 (* ---------- the link between the arguments of the API calls and the envelopes ---------- *)
